@@ -192,11 +192,18 @@ def capsLine : String :=
 def stripFree (ts : List String) : List String :=
   match ts with
   | "free" :: r => r
+  | "strict" :: r => r
   | _ => ts
+
+/-- `strict` cases are judged under the literal reading "live until released": markers handed out by
+the generators never expire in the reference live-set (witnesses of the known finding
+marker-ttl-shorter-than-entity; pre-existing markers keep their own expiry). -/
+def specTtl (caseToks : List String) (c : Case) : Nat → Nat :=
+  if caseToks.head? = some "strict" then fun _ => 0 else ttlOf c.ttl
 
 def runModel (ts : List String) : String :=
   if ts = ["caps"] then capsLine else
-  match parseCase ts with
+  match parseCase (stripFree ts) with
   | none => "bad-case"
   | some c =>
     let fin := run (paramsOf c) (init c.pre c.progs) c.sched
@@ -208,7 +215,7 @@ def runHolds (caseToks obsToks : List String) : String :=
     boolStr (obsToks.take 4 == ["mem=1", "red=1", "hyb=1", "hybrt=1"])
   else
   match parseCase (stripFree caseToks), parseObs obsToks with
-  | some c, some (tr, view) => boolStr (holds (ttlOf c.ttl) c.pre tr view)
+  | some c, some (tr, view) => boolStr (holds (specTtl caseToks c) c.pre tr view)
   | _, _ => "false"
 
 end Tunnox.Drv.C15
